@@ -216,7 +216,7 @@ class CounterA(Adapter):
 
 class MinMax(_Col):
   name = 'MinMaxAndCount'
-  pools = [[1.0, 2.0, 4.0, -3.0], [5.0, 5.0, 5.0, 5.0], [0.0, -1.0, 7.0, 2.0]]
+  pools = [[1.0, 2.0, 4.0, -3.0], [5.0, 5.0, 5.0, 5.0], [0.0, -1.0, 7.0, 2.0], [-3.0, -1.0, -7.0, -2.5]]      # the last: all negative
 
   def fresh(self):
     return _rs().MinMaxAndCount()
@@ -224,6 +224,18 @@ class MinMax(_Col):
   def result(self, acc):
     r = acc.result()
     return canon((r.count, r.min, r.max))
+
+
+class MinMaxAxis(MinMax):
+  """axis=1: a batch is (features, examples); min / max per feature over all examples of all batches."""
+  name = 'MinMaxAndCount/axis1'
+  pools = [[[1.0, 7.0, -2.0], [0.0, 30.0, -1.0], [6.0, 9.0, -5.0], [3.0, 8.0, -4.0]]]
+
+  def fresh(self):
+    return _rs().MinMaxAndCount(axis=1)
+
+  def batch_args(self, rows):
+    return (np.array(rows, dtype=float).T,)
 
 
 class ValueAcc(Adapter):
@@ -747,7 +759,7 @@ def all_adapters():
 
 
 def _direct_adapters():
-  return [Mean1D(), Mean2D(), Mean2DMixed(), MeanVar1D(), MeanVar2D(), MeanVar2DMixed(), Var1D(), Hist(), HistEdges(), CounterA(), MinMax(), ValueAcc(),
+  return [Mean1D(), Mean2D(), Mean2DMixed(), MeanVar1D(), MeanVar2D(), MeanVar2DMixed(), Var1D(), Hist(), HistEdges(), CounterA(), MinMax(), MinMaxAxis(), ValueAcc(),
           ValueAccMetric(), Unbounded(), UnboundedSingle(), Reservoir(), Reservoir3(), R2(), R2Rel(), RReg(), RRegNC(),
           RRegMulti(), RRegMultiMixed(), SPD(), MeanStateA(), MeanStateArr(), TupleMean(), NGrams(), NGrams2(), NGramsFirst(), Patterns(),
           PatternsNoDup(), CMBinary(), CMBinaryStr(), CMMultiMicro(), CMMultiMicroNoVocab(), CMMultiMacro(), CMMultiOut(), CMIndicator(), CMTopK(),
